@@ -162,6 +162,19 @@ class Tracer(object):
                 p.env['?' + name] = s.value
             p.events.append(('stmt', s))
             return [p]
+        if isinstance(s, ast.Assign) and len(s.targets) == 1 and isinstance(s.targets[0], (ast.Tuple, ast.List)) \
+                and all(isinstance(t, ast.Name) for t in s.targets[0].elts):
+            v = self.value(s.value, p)
+            names = [t.id for t in s.targets[0].elts]
+            for k, name in enumerate(names):
+                if name in self.pinned:
+                    continue
+                if isinstance(v, (tuple, list)) and len(v) == len(names) and v[k] is not UNKNOWN and not isinstance(v[k], (list, dict, set, bytearray)):
+                    p.env[name] = v[k]
+                else:
+                    p.env.pop(name, None)
+            p.events.append(('stmt', s))
+            return [p]
         if isinstance(s, ast.AugAssign) and isinstance(s.target, ast.Name):
             p.env.pop(s.target.id, None)
             p.events.append(('stmt', s))
@@ -211,3 +224,37 @@ def if_chain(node):
             out.append((None, cur.orelse))
         break
     return out
+
+
+def comparison_constants(repo, fi):
+    """every integer a comparison in the function mentions (folded), for boundary-representative enumeration"""
+    out = set()
+    for n in ast.walk(fi.node):
+        if isinstance(n, ast.Compare):
+            for e in [n.left] + list(n.comparators):
+                v = repo.fold(e, fi.module, cls=fi.cls)
+                if isinstance(v, int) and not isinstance(v, bool):
+                    out.add(int(v))
+                elif isinstance(v, (tuple, list, set, frozenset)):
+                    for x in v:
+                        if isinstance(x, int) and not isinstance(x, bool):
+                            out.add(int(x))
+        elif isinstance(n, ast.Call) and isinstance(n.func, ast.Name) and n.func.id == 'range':
+            for e in n.args:
+                v = repo.fold(e, fi.module, cls=fi.cls)
+                if isinstance(v, int) and not isinstance(v, bool):
+                    out.add(int(v))
+    return out
+
+
+def representatives(consts, extra=(), lo=None, hi=None):
+    """c-1, c, c+1 around every constant: a function that is piecewise constant with breakpoints among the constants
+    is decided by its values at these points"""
+    pts = set()
+    for c in list(consts) + list(extra):
+        pts.update((c - 1, c, c + 1))
+    if lo is not None:
+        pts = {p for p in pts if p >= lo} | {lo}
+    if hi is not None:
+        pts = {p for p in pts if p <= hi} | {hi}
+    return sorted(pts)
